@@ -262,6 +262,8 @@ def gen_meta(rng, richness=None):
         meta['text'] = text_v(rng)
     if rng.random() < 0.5:
         meta['tag'] = rng.sample(TAGS, rng.choice([0, 1, 1, 2, 3]))
+        if len(meta['tag']) > 1 and rng.random() < 0.2:
+            meta['tag_as_tuple'] = True
         if meta['tag'] and rng.random() < 0.15:
             # a tag list is a list: the same tag may be listed more than once
             meta['tag'] = meta['tag'] + [meta['tag'][0]] if rng.random() < 0.5 else [meta['tag'][0]] * 2
@@ -498,6 +500,10 @@ def build_region(spec):
     for k in ('meta', 'visual'):
         if spec.get(k) is not None:
             clean[k] = spec[k]
+    tag_tuple = False
+    if (clean.get('meta') or {}).get('tag_as_tuple'):
+        clean['meta'] = dict(clean['meta'])
+        tag_tuple = bool(clean['meta'].pop('tag_as_tuple'))
     npinc = None
     if isinstance((clean.get('meta') or {}).get('include'), str):
         clean['meta'] = dict(clean['meta'])
@@ -506,6 +512,8 @@ def build_region(spec):
     r = S.build(clean)
     if npinc is not None:
         r.meta['include'] = npinc
+    if tag_tuple and 'tag' in r.meta:
+        r.meta['tag'] = tuple(r.meta['tag'])          # several tags held in a tuple instead of a list
     ls = dict.get(r.visual, 'linestyle')
     if isinstance(ls, list):
         dict.__setitem__(r.visual, 'linestyle', (ls[0], tuple(ls[1])))
